@@ -1,3 +1,16 @@
 package main
 
-func (g *gen) stream9(name string, n int) bool { return false }
+func (g *gen) stream9(name string, n int) bool {
+	switch name {
+	case "agent-conc":
+		g.caseMark("agent-conc", 0)
+		for i := 0; i < n; i++ {
+			workers := []int{2, 3, 4, 8, 16}[g.r.intn(5)]
+			iters := 400 / workers
+			g.emit("AGCONC %d %d %d %d", workers, iters, 1+g.r.intn(4), g.r.intn(1<<30))
+		}
+	default:
+		return false
+	}
+	return true
+}
